@@ -4,13 +4,33 @@ import (
 	"strings"
 )
 
+// setFlag adds a flag to the set unless it is already there in another
+// spelling (flag names are case-insensitive, RFC 3501 section 9)
+func setFlag(flagMap map[string]bool, flag string) {
+	for f := range flagMap {
+		if strings.EqualFold(f, flag) {
+			return
+		}
+	}
+	flagMap[flag] = true
+}
+
+// clearFlag removes a flag from the set, whatever its spelling
+func clearFlag(flagMap map[string]bool, flag string) {
+	for f := range flagMap {
+		if strings.EqualFold(f, flag) {
+			delete(flagMap, f)
+		}
+	}
+}
+
 // CalculateNewFlags determines the new flags based on the operation
 func CalculateNewFlags(currentFlags string, newFlags []string, operation string) string {
 	// Parse current flags into a map
 	flagMap := make(map[string]bool)
 	if currentFlags != "" {
 		for _, flag := range strings.Fields(currentFlags) {
-			flagMap[flag] = true
+			setFlag(flagMap, flag)
 		}
 	}
 
@@ -19,24 +39,24 @@ func CalculateNewFlags(currentFlags string, newFlags []string, operation string)
 		// Replace all flags (except \Recent which server manages)
 		flagMap = make(map[string]bool)
 		for _, flag := range newFlags {
-			if flag != "\\Recent" {
-				flagMap[flag] = true
+			if !strings.EqualFold(flag, "\\Recent") {
+				setFlag(flagMap, flag)
 			}
 		}
 
 	case "+FLAGS":
 		// Add flags
 		for _, flag := range newFlags {
-			if flag != "\\Recent" {
-				flagMap[flag] = true
+			if !strings.EqualFold(flag, "\\Recent") {
+				setFlag(flagMap, flag)
 			}
 		}
 
 	case "-FLAGS":
 		// Remove flags
 		for _, flag := range newFlags {
-			if flag != "\\Recent" {
-				delete(flagMap, flag)
+			if !strings.EqualFold(flag, "\\Recent") {
+				clearFlag(flagMap, flag)
 			}
 		}
 	}
